@@ -258,6 +258,38 @@ EpChkBuild(x, y) ==
      ELSE Park(Place(Place(c2, eksq, MkCell(opp, K)), ssq, MkCell(side, y[3])), side, side, 0, victim, 0, 1)
 
 (***************************************************************************)
+(* F_EPX / F_EPCHKX: the members of F_EP in which an e.p. capture is       *)
+(* pseudo-legal but ILLEGAL (it exposes the mover's king), and the members *)
+(* of F_EPCHK in which an e.p. capture GIVES CHECK.  The filter is part of *)
+(* the family (evaluated by TLC while enumerating), so that samples        *)
+(* consist of the interesting geometries only.                             *)
+(***************************************************************************)
+EpxBuild(x, y) ==
+  LET p == EpBuild(x, y) IN
+  \* not in check now: the capture itself (removing two pawns from their lines) exposes the king
+  IF IsValid(p) /\ ~InCheck(p) /\ (\E m \in PseudoLegal(p) : m[1] = KEnpassant /\ ~LeavesKingSafe(p, m)) THEN p
+  ELSE MkPos(EmptyCells, 0, 0, -1, 0, 1)
+EpChkxBuild(x, y) ==
+  LET p == EpChkBuild(x, y) IN
+  IF IsValid(p) /\ (\E m \in Legal(p) : m[1] = KEnpassant /\ InCheck(ApplyMove(p, m))) THEN p
+  ELSE MkPos(EmptyCells, 0, 0, -1, 0, 1)
+
+(***************************************************************************)
+(* F_STALEMIN: a cornered king with NO legal move (stalemate or mate)      *)
+(* facing king + one minor piece or queen: forced outcomes that coincide   *)
+(* with insufficient material or with clock thresholds.                    *)
+(***************************************************************************)
+StaleCoarse == {<<corner, side, hm>> \in {0, 7, 56, 63} \X {0, 1} \X {0, 100, 150} : TRUE}
+StaleFine(x) ==
+  LET near == {q \in Sq : Abs(FileOf(q) - FileOf(x[1])) <= 2 /\ Abs(RankOf(q) - RankOf(x[1])) <= 2 /\ q # x[1]} IN
+  {<<ek, p, ps>> \in near \X {N, B, Q} \X Sq : ps # ek /\ ps # x[1]}
+StaleBuild(x, y) ==
+  LET side == x[2]  opp == Other(side)
+      c == Place(Place(Place(EmptyCells, x[1], MkCell(side, K)), y[1], MkCell(opp, K)), y[3], MkCell(opp, y[2]))
+      pos == MkPos(c, side, 0, -1, x[3], 1)
+  IN IF IsValid(pos) /\ Legal(pos) = {} THEN pos ELSE MkPos(EmptyCells, side, 0, -1, 0, 1)
+
+(***************************************************************************)
 (* F_MULTICHK: the king of the side to move attacked by THREE men at once  *)
 (* (a knight, a diagonal slider and an orthogonal slider): unreachable in  *)
 (* play, valid for the library.                                            *)
@@ -338,17 +370,17 @@ RawBuild(x, y) ==
                      IF back = -1 \/ c[back] \in {MkCell(0, K), MkCell(1, K)} THEN sk
                      ELSE [sk EXCEPT !.cells = Place(c, back, y[2])]
 
-FamilyNames == {"EP", "EPEDGE", "ONLYEP", "PIN", "CASTLE", "PROMO", "MAT", "CHK", "AMBIG", "RAW", "MINOR", "MULTICHK", "ROOKCAP", "EPCHK"}
+FamilyNames == {"EP", "EPEDGE", "ONLYEP", "PIN", "CASTLE", "PROMO", "MAT", "CHK", "AMBIG", "RAW", "MINOR", "MULTICHK", "ROOKCAP", "EPCHK", "STALEMIN", "EPX", "EPCHKX"}
 Coarse(f) ==
   CASE f = "EP" -> EpCoarse [] f = "EPEDGE" -> EdgeCoarse [] f = "ONLYEP" -> OnlyEpCoarse
     [] f = "PIN" -> PinCoarse [] f = "CASTLE" -> CastleCoarse [] f = "PROMO" -> PromoCoarse
-    [] f = "MAT" -> MatCoarse [] f = "CHK" -> ChkCoarse [] f = "AMBIG" -> AmbigCoarse [] f = "RAW" -> RawCoarse [] f = "MINOR" -> MinorCoarse [] f = "MULTICHK" -> MultiCoarse [] f = "ROOKCAP" -> RookCapCoarse [] f = "EPCHK" -> EpChkCoarse
+    [] f = "MAT" -> MatCoarse [] f = "CHK" -> ChkCoarse [] f = "AMBIG" -> AmbigCoarse [] f = "RAW" -> RawCoarse [] f = "MINOR" -> MinorCoarse [] f = "MULTICHK" -> MultiCoarse [] f = "ROOKCAP" -> RookCapCoarse [] f = "EPCHK" -> EpChkCoarse [] f = "STALEMIN" -> StaleCoarse [] f = "EPX" -> EpCoarse [] f = "EPCHKX" -> EpChkCoarse
 Fine(f, x) ==
   CASE f = "EP" -> EpFine(x) [] f = "EPEDGE" -> EdgeFine(x) [] f = "ONLYEP" -> OnlyEpFine(x)
     [] f = "PIN" -> PinFine(x) [] f = "CASTLE" -> CastleFine(x) [] f = "PROMO" -> PromoFine(x)
-    [] f = "MAT" -> MatFine(x) [] f = "CHK" -> ChkFine(x) [] f = "AMBIG" -> AmbigFine(x) [] f = "RAW" -> RawFine(x) [] f = "MINOR" -> MinorFine(x) [] f = "MULTICHK" -> MultiFine(x) [] f = "ROOKCAP" -> RookCapFine(x) [] f = "EPCHK" -> EpChkFine(x)
+    [] f = "MAT" -> MatFine(x) [] f = "CHK" -> ChkFine(x) [] f = "AMBIG" -> AmbigFine(x) [] f = "RAW" -> RawFine(x) [] f = "MINOR" -> MinorFine(x) [] f = "MULTICHK" -> MultiFine(x) [] f = "ROOKCAP" -> RookCapFine(x) [] f = "EPCHK" -> EpChkFine(x) [] f = "STALEMIN" -> StaleFine(x) [] f = "EPX" -> EpFine(x) [] f = "EPCHKX" -> EpChkFine(x)
 Build(f, x, y) ==
   CASE f = "EP" -> EpBuild(x, y) [] f = "EPEDGE" -> EdgeBuild(x, y) [] f = "ONLYEP" -> OnlyEpBuild(x, y)
     [] f = "PIN" -> PinBuild(x, y) [] f = "CASTLE" -> CastleBuild(x, y) [] f = "PROMO" -> PromoBuild(x, y)
-    [] f = "MAT" -> MatBuild(x, y) [] f = "CHK" -> ChkBuild(x, y) [] f = "AMBIG" -> AmbigBuild(x, y) [] f = "RAW" -> RawBuild(x, y) [] f = "MINOR" -> MinorBuild(x, y) [] f = "MULTICHK" -> MultiBuild(x, y) [] f = "ROOKCAP" -> RookCapBuild(x, y) [] f = "EPCHK" -> EpChkBuild(x, y)
+    [] f = "MAT" -> MatBuild(x, y) [] f = "CHK" -> ChkBuild(x, y) [] f = "AMBIG" -> AmbigBuild(x, y) [] f = "RAW" -> RawBuild(x, y) [] f = "MINOR" -> MinorBuild(x, y) [] f = "MULTICHK" -> MultiBuild(x, y) [] f = "ROOKCAP" -> RookCapBuild(x, y) [] f = "EPCHK" -> EpChkBuild(x, y) [] f = "STALEMIN" -> StaleBuild(x, y) [] f = "EPX" -> EpxBuild(x, y) [] f = "EPCHKX" -> EpChkxBuild(x, y)
 =============================================================================
